@@ -59,6 +59,7 @@ func (pr *Pruner) Infeasible(ts []*Term) bool {
 		return false
 	}
 	var names []string
+	ts = append(ts, boundFactsFor(ts...)...)
 	for _, t := range ts {
 		if t == True {
 			continue
